@@ -1,6 +1,6 @@
 (** C02 — Session delivery: no event lost, duplicated or reordered within a writer. *)
 From Coq Require Import List ZArith NArith Bool Sorted.
-From BL Require Import Base.Bytes Reader.Entry Queue.QueueModel Queue.QueueInv Session.SessionModel Session.SessionInv Session.SessionProps Session.SessionRemoval Session.SessionReplace Session.SessionPieces Gen.SrcFacts.
+From BL Require Import Base.Bytes Reader.Entry Queue.QueueModel Queue.QueueInv Session.SessionModel Session.SessionInv Session.SessionProps Session.SessionRemoval Session.SessionReplace Session.SessionPieces Session.SessionGone Gen.SrcFacts.
 Import ListNotations.
 Local Open Scope Z_scope.
 
@@ -123,6 +123,30 @@ Example C02_pieces_nonvacuous :
   let s := fst (srun true (sess_init default_cs) rm_ops) in
   map fst (consume_pieces s []) = [0; 1; 2]%N /\ map (fun p => length (snd p)) (consume_pieces s []) = [2; 2; 2]%nat.
 Proof. exact pieces_nonvacuous. Qed.
+
+(** (2f) ... and no later consume - after ANY further operations - writes a piece for a channel that was closed before an earlier consume.
+    So the events of an abandoned queue are confined to the outputs up to and including the first consume after the replacement (2d), in
+    that consume they stand before the replacement channel's piece (2c, 2e), and afterwards only the replacement channel (and its own
+    successors, by the same argument) is written: with the per-channel FIFO (1) one writer's events are in program order in the
+    concatenation of all consume outputs. *)
+Theorem C02_abandoned_queue_never_written_again : forall cs ops plans ops2 plans2, Forall sop_rm ops ->
+  let s := fst (srun SrcFacts.sess_fence_after_closed_test (sess_init cs) ops) in
+  forall c, In c (channels s) -> ch_owner c = None ->
+  ~ In (ch_uid c) (map fst (consume_pieces (fst (srun SrcFacts.sess_fence_after_closed_test
+        (fst (fst (consume SrcFacts.sess_fence_after_closed_test s plans))) ops2)) plans2)).
+Proof.
+  generalize (eq_refl : SrcFacts.sess_fence_after_closed_test = true). generalize SrcFacts.sess_fence_after_closed_test. intros b_ ->.
+  generalize (eq_refl : SrcFacts.sess_create_appends = true). generalize SrcFacts.sess_create_appends. intros b3 ->.
+  generalize (eq_refl : SrcFacts.writer_replace_shape = true). generalize SrcFacts.writer_replace_shape. intros b1 ->.
+  exact abandoned_queue_never_written_again.
+Qed.
+Print Assumptions C02_abandoned_queue_never_written_again.
+Example C02_never_again_nonvacuous :
+  let s := fst (srun true (sess_init default_cs) rm_ops) in
+  let s' := fst (fst (consume true s [])) in
+  let s'' := fst (srun true s' [SAddEvent 2%N 0%nat (le_enc 8 1 ++ le_enc 8 9)]) in
+  map fst (consume_pieces s [] ) = [0; 1; 2]%N /\ map fst (consume_pieces s'' []) = [2%N] /\ map (fun p => length (snd p)) (consume_pieces s'' []) = [2%nat].
+Proof. exact never_again_nonvacuous. Qed.
 Example C02_replacement_nonvacuous :
   let s := fst (srun true (sess_init default_cs) rm_ops) in
   map (fun c => match ch_owner c with None => true | _ => false end) (channels s) = [true; true; false] /\
